@@ -26,6 +26,8 @@ EXPECTED_PROBES = ['cut_inside_header', 'cut_inside_reply', 'one_byte_delivery',
                    'cut_inside_utf8_char', 'variant_runs']
 
 BASES = ['C01', 'C04', 'C05', 'C06', 'C10']
+USABLE = {'C01': ['seeded'], 'C04': ['seeded'], 'C05': ['seeded'],
+          'C06': ['seeded'], 'C10': ['seeded', 'size_edge']}
 
 
 def _base(name):
@@ -103,8 +105,9 @@ def make_case(family, i, rng, tier):
         bname = avail[i % len(avail)]
         mod = _base(bname)
         plan_b = mod.plan(tier)
-        fams = [f for f, _ in plan_b
-                if f not in ('headers', 'big', 'sweep', 'stall', 'reconnect')]
+        # an allow-list: families added to a base module later (several
+        # objects, reconnects ...) are not single-stream scenarios
+        fams = [f for f, _ in plan_b if f in USABLE[bname]]
         fam = rng.choice(fams)
         cnt = dict(plan_b)[fam]
         sub = random.Random(rng.getrandbits(64))
